@@ -310,6 +310,12 @@ class Program:
                     out.add(t['callee']['inst'])
                 if o.get('ck') == 'ptr' and 'fn' in o:
                     out.add(o['fn']['inst'])
+                if o.get('ck') == 'ptr' and 'static' in o:
+                    for st in self.facts['statics']:
+                        if st['path'] == o['static']:
+                            for ip in st['init_ptrs']:
+                                if 'fn' in ip:
+                                    out.add(ip['fn']['inst'])
         for b, i, s in inst.stmts():
             if s['k'] != 'assign':
                 continue
